@@ -52,7 +52,7 @@ def run_loader(path, loader, axis, group=None, variant=None):
                                     subset_with_metadata=True)
         elif variant == "no-subset-metadata":
             with h5py.File(path, "r") as f:       # without ids the flag has nothing to do
-                r = Table.from_hdf5(f if group is None else f[group], None, "observation", {}, False)
+                r = Table.from_hdf5(f if group is None else f[group], None, "observation", c04.REUSED_PARSE_FS, False)
         elif variant == "parse_fs-unused":
             with h5py.File(path, "r") as f:
                 r = Table.from_hdf5(f if group is None else f[group], parse_fs={"no such category": lambda x: "POISONED"})
@@ -127,8 +127,10 @@ def write_read_load(case, tmp=TMP):
     c04.plant_stale(case, path)
     try:
         try:
+            case["_t0"] = datetime.datetime.now()
             with c04.profile_of(case, src):
                 gen_by, date = c04.write_file(case, t, path, tmp)
+            case["_t1"] = datetime.datetime.now()
         except Exception as e:                      # noqa: BLE001
             raise c04.Unobservable("write", e, src, pre)
         try:
@@ -278,6 +280,7 @@ def run(ctx):
             check_case(ctx, c04.gen_case(ctx.rng, ctx.quick(), empty_axes=(ctx.rng.random() < 0.3)), tmp)
         if widx == 0:
             edge_stream(ctx, tmp)
+        c04.reused_args_untouched(ctx)
     finally:
         shutil.rmtree(tmp, ignore_errors=True)
 
